@@ -485,3 +485,199 @@ harness! { #[kani::unwind(6)] fn twin_u_phase() {
     core::mem::forget(store);
     finish!(1, 3, 7, 11, 12, 18);
 } }
+
+// -----------------------------------------------------------------------------------------
+// U-dispatch: the dispatch entry points against a full queue (C02 / C05 / C06 / C18)
+// -----------------------------------------------------------------------------------------
+static mut DISP_TAKEN: u8 = 0;
+static mut DISP_STORE: Option<Arc<Store>> = None;
+/// a BlockOnFull dispatch waits for room: the reducer takes one action (modelled by the
+/// queue's receiving side being drained through the store's own loop is not needed here:
+/// the test queue is drained by hand)
+fn disp_block(kind: u8, obj: usize) {
+    unsafe {
+        if kind == crossbeam::hooks::SEND && obj == 0 && DISP_TAKEN == 0 {
+            DISP_TAKEN = 1;
+            // the reducer loop would `recv` here; take the head the same way
+            crossbeam::channel::model_take_head::<crate::store_impl::ActionOp<Act>>(0);
+            return;
+        }
+    }
+    panic!("VERIF-DEADLOCK: blocked with nothing to unblock");
+}
+
+fn u_dispatch(policy: u8, cap: usize, entry: u8) {
+    rt::reset_all();
+    script::reset();
+    crossbeam::hooks::set_native(None, Some(disp_block));
+    unsafe {
+        DISP_TAKEN = 0;
+    }
+    let pol = match policy {
+        0 => BackpressurePolicy::BlockOnFull,
+        1 => BackpressurePolicy::DropOldest,
+        _ => BackpressurePolicy::DropLatest,
+    };
+    let store = mk_store(1, 0, cap, pol, kani::any());
+    // fill the queue (the loop has not been scheduled yet)
+    let mut i = 0;
+    while i < cap {
+        let r = crate::StoreImpl::dispatch(&store, kani::any());
+        chk!(5, r.is_ok(), "dispatch with room is accepted");
+        core::mem::forget(r);
+        i += 1;
+    }
+    let g0 = crossbeam::channel::ghost(0);
+    let tasks0 = rusty_pool::ghost::tasks();
+    let d0 = store.metrics.action_dropped.load(Ordering::SeqCst);
+    chk!(5, g0.len == cap, "queue filled to its capacity");
+    let x: Act = kani::any();
+    let r = match entry {
+        0 => crate::StoreImpl::dispatch(&store, x),
+        1 => Dispatcher::dispatch(&store, x),
+        _ => <Store as crate::Store<St, Act>>::dispatch(&store, x),
+    };
+    let g1 = crossbeam::channel::ghost(0);
+    let d1 = store.metrics.action_dropped.load(Ordering::SeqCst);
+    chk!(2, rusty_pool::ghost::tasks() == tasks0, "dispatch enqueues the action itself before it returns (nothing is handed to a worker), so a later dispatch cannot overtake it");
+    match policy {
+        0 => {
+            chk!(5, r.is_ok() && unsafe { DISP_TAKEN } == 1, "BlockOnFull: the caller waits until the reducer makes room, then the action is accepted");
+            chk!(5, g1.len == cap && g1.max_len <= cap && d1 == d0, "BlockOnFull: nothing is discarded, the queue never exceeds its capacity");
+            chk!(2, g1.n_send == g0.n_send + 1 && g1.len == cap, "when dispatch returns Ok the action IS in the queue (real-time order)");
+        }
+        1 => {
+            chk!(6, r.is_ok() && g1.len == cap && d1 == d0 + 1 && g1.n_send == g0.n_send, "DropOldest: never waits, evicts and counts the oldest action, admits the new one");
+        }
+        _ => {
+            chk!(6, g1.len == cap && d1 == d0 + 1 && g1.n_taken == g0.n_taken && g1.n_send == g0.n_send, "DropLatest: never waits, discards and counts the new action, queue untouched");
+            if entry == 1 {
+                chk!(6, r.is_err(), "a DropLatest dispatch through the Dispatcher interface returns Err exactly for the discarded action");
+            }
+        }
+    }
+    chk!(18, d1 - d0 == if policy == 0 { 0 } else { 1 }, "action_dropped counts exactly the discarded action");
+    core::mem::forget(r);
+    core::mem::forget(store);
+    finish!(2, 5, 6, 18);
+}
+macro_rules! disp_harness {
+    ($($name:ident = ($p:expr, $c:expr, $e:expr);)+) => { $(
+        harness! {
+            #[kani::stub(crossbeam::hooks::block, disp_block)]
+            #[kani::unwind(6)]
+            fn $name() { u_dispatch($p, $c, $e); }
+        }
+    )+ };
+}
+disp_harness! {
+    u_dispatch_block_cap1_inherent = (0, 1, 0);
+    u_dispatch_block_cap2_dispatcher = (0, 2, 1);
+    u_dispatch_block_cap1_trait = (0, 1, 2);
+    u_dispatch_oldest_cap1_dispatcher = (1, 1, 1);
+    u_dispatch_oldest_cap2_inherent = (1, 2, 0);
+    u_dispatch_latest_cap1_dispatcher = (2, 1, 1);
+    u_dispatch_latest_cap2_dispatcher = (2, 2, 1);
+    u_dispatch_latest_cap1_inherent = (2, 1, 0);
+}
+
+// -----------------------------------------------------------------------------------------
+// S-late (C07): a middleware / reducer registered by another thread while the reducer
+// context is inside a callback of the current action must be part of the NEXT action
+// -----------------------------------------------------------------------------------------
+static mut LATE_DONE: u8 = 0;
+fn late_yield(kind: u8, obj: usize) {
+    if rt::at_placement(kind, obj) {
+        unsafe {
+            let s = match DISP_STORE.as_ref() {
+                Some(s) => s,
+                None => return,
+            };
+            rt::IN_UNIT = true;
+            // add_middleware / add_reducer start by taking the list's lock: where the suspended
+            // reducer context holds it (while it iterates the list) the call waits - skipped here
+            if LATE_WHAT == 0 {
+                if s.reducers.try_lock().is_ok() {
+                    rt::in_ctx(rt::CTX_CLIENT, || s.add_reducer(Box::new(ScriptReducer { idx: 2 })));
+                    LATE_DONE = 1;
+                }
+            } else {
+                // the middleware list is private: enabledness is decided by the lock stub
+                // (`assume(false)` prunes the placement when the list is locked)
+                rt::in_ctx(rt::CTX_CLIENT, || s.add_middleware(Arc::new(ScriptMiddleware { idx: 2 })));
+                LATE_DONE = 1;
+            }
+            rt::IN_UNIT = false;
+        }
+    }
+}
+static mut LATE_WHAT: u8 = 0;
+
+fn s_late(what: u8, kind: u8, obj: usize) {
+    rt::reset_all();
+    script::reset();
+    crossbeam::hooks::set_native(Some(late_yield), None);
+    let store = mk_store(2, 2, 4, BackpressurePolicy::BlockOnFull, kani::any());
+    unsafe {
+        core::ptr::write(&mut DISP_STORE, Some(store.clone()));
+        LATE_DONE = 0;
+        LATE_WHAT = what;
+        LAST_REDUCER = 1;
+    }
+    // action 0: the registration lands inside one of its callbacks
+    unsafe {
+        CUR_MODE = 0;
+        CUR = 0;
+    }
+    rt::arm(kind, obj, 0);
+    let s0: St = kani::any();
+    let a0: Act = kani::any();
+    let d0: Arc<dyn Dispatcher<Act>> = Arc::new(store.clone());
+    let (_n, out0, e0) = in_reducer(|| store.do_reduce(&a0, s0, d0, rt::now_model()));
+    core::mem::forget(e0);
+    unsafe {
+        rt::PLACE_ARMED = false;
+    }
+    let done = unsafe { LATE_DONE } == 1;
+    // action 1 is dispatched after the registration returned
+    unsafe {
+        CUR = 1;
+    }
+    let a1: Act = kani::any();
+    let d1: Arc<dyn Dispatcher<Act>> = Arc::new(store.clone());
+    let (_n1, _out1, e1) = in_reducer(|| store.do_reduce(&a1, out0, d1, rt::now_model()));
+    core::mem::forget(e1);
+    // the two original callbacks of each kind always run for action 1
+    chk!(7, unsafe { RED[1][0].n == 1 && RED[1][1].n == 1 && MW[1][0][H_REDUCE].n == 1 && MW[1][1][H_REDUCE].n == 1 }, "components registered at build time are in every action's pipeline");
+    if done {
+        if what == 0 {
+            chk!(7, unsafe { RED[1][2].n } == 1, "a reducer registered (from any thread) before an action is dispatched is never left out of that action's pipeline");
+            chk!(7, unsafe { RED[1][2].at > RED[1][1].at }, "a late reducer runs after the earlier ones (registration order)");
+        } else {
+            chk!(7, unsafe { MW[1][2][H_REDUCE].n } == 1, "a middleware registered (from any thread) before an action is dispatched is never left out of that action's pipeline");
+            chk!(7, unsafe { MW[1][2][H_REDUCE].at > MW[1][1][H_REDUCE].at }, "a late middleware runs after the earlier ones (registration order)");
+        }
+    }
+    kani::cover!(done, "COVER-OPT the registration was enabled at this placement");
+    unsafe {
+        core::ptr::write(&mut DISP_STORE, None);
+    }
+    core::mem::forget(store);
+    finish!(7);
+}
+macro_rules! late_harness {
+    ($($name:ident = ($w:expr, $k:expr, $o:expr);)+) => { $(
+        harness! {
+            #[kani::stub(crossbeam::hooks::yield_point, late_yield)]
+            #[kani::unwind(6)]
+            fn $name() { s_late($w, $k, $o); }
+        }
+    )+ };
+}
+late_harness! {
+    s_late_mw_in_before_reduce0 = (1, rt::P_BEFORE_REDUCE, 0);
+    s_late_mw_in_before_reduce1 = (1, rt::P_BEFORE_REDUCE, 1);
+    s_late_mw_in_reducer0 = (1, rt::P_REDUCE, 0);
+    s_late_reducer_in_before_reduce1 = (0, rt::P_BEFORE_REDUCE, 1);
+    s_late_reducer_in_reducer1 = (0, rt::P_REDUCE, 1);
+}
